@@ -105,11 +105,15 @@ impl Aggregate {
         self.add("fault.precompile_panic", s.precompile_panics);
         self.add("fault.precompile_ignored_fault", s.precompile_ignored_faults);
         self.add("db.calls", s.db_calls);
+        self.add("probe.database_asked_for_unknown_code_hash", s.unknown_code_requests);
         self.add("precompile.calls", s.precompile_calls);
         self.add("case.reference_error", s.reference_error as u64);
         self.add("case.call_error", s.call_error as u64);
         self.add("case.call_panic", s.call_panic as u64);
         self.add("case.readback_keys", s.readback_keys);
+        for (k, n) in &s.workload {
+            self.add(k, *n);
+        }
         if let Some(sample) = r.sample &&
             self.samples.len() < 3
         {
@@ -204,24 +208,26 @@ pub fn write_evidence(meta: &EvidenceMeta<'_>, agg: &Aggregate, wall: f64, viola
             "distinct_nontrivial": agg.behaviours_nontrivial.len(),
             "rule": meta.rule,
             "samples": samples,
-            "simulated_runs": agg.evaluations,
-            "runs_completed": agg.completed,
-            "runs_per_hour": runs_per_hour,
-            "simulated_time_decisions": agg.decisions,
-            "schedule_points_executed": agg.steps,
-            "context_switches": agg.context_switches,
-            "preemptions": agg.preemptions,
-            "distinct_interleavings_by_trace_hash": agg.trace_hashes.len(),
-            "distinct_abstract_behaviours": agg.behaviours_all.len(),
-            "nontrivial_runs": agg.nontrivial,
-            "fair_phase_entered_runs": agg.fair_phase_entered,
-            "max_fair_phase_decisions": agg.max_fair_decisions,
-            "faults_and_probes_fired": agg.counters,
-            "case_groups": agg.groups,
+            "reach": {
+                "simulated_runs": agg.evaluations,
+                "runs_completed": agg.completed,
+                "runs_per_hour": runs_per_hour,
+                "simulated_time_decisions": agg.decisions,
+                "schedule_points_executed": agg.steps,
+                "context_switches": agg.context_switches,
+                "preemptions": agg.preemptions,
+                "distinct_interleavings_by_trace_hash": agg.trace_hashes.len(),
+                "distinct_abstract_behaviours": agg.behaviours_all.len(),
+                "nontrivial_runs": agg.nontrivial,
+                "fair_phase_entered_runs": agg.fair_phase_entered,
+                "max_fair_phase_decisions": agg.max_fair_decisions,
+                "faults_and_probes_fired": agg.counters,
+                "case_groups": agg.groups,
+                "known_findings_matched": known,
+            },
             "components_real": meta.real_components,
             "components_replaced_by_simulator": meta.replaced_components,
             "components_stubbed": meta.stubbed_components,
-            "known_findings_matched": known,
             "extra": meta.extra,
         },
         "assumptions": meta.assumptions,
